@@ -326,3 +326,159 @@ Proof.
   exists site_srcs, lenient_then_strict, (bs "unknown.example"), {| l_cs := bs "site"; l_strict := true |}.
   vm_compute. repeat split.
 Qed.
+
+(* ================= a certificate file that is there with nothing in it ================= *)
+(* A wanted entry of the directory that reads as a file in which tls.X509KeyPair finds neither
+   a certificate nor a key - a file of zero length (truncated by an interrupted rewrite, a full
+   disk, an O_TRUNC rewrite seen half-way), blanks, a placeholder - whatever size Lstat
+   reports for it, 0 included: the directory does not read as a usable set.  It is never read
+   as the smaller set of the remaining files. *)
+Lemma has_suffix_skipn p s k : has_suffix (skipn k p) s = true -> has_suffix p s = true.
+Proof.
+  intros H. apply has_suffix_spec in H as [r Hr]. apply has_suffix_spec.
+  exists (firstn k p ++ r). rewrite <- app_assoc, <- Hr. symmetry. apply firstn_skipn.
+Qed.
+Lemma pem_name_suffix p : pem_name p = true -> has_suffix p s_pem = true.
+Proof.
+  unfold pem_name, base_name. intros H. apply andb_prop in H as [H _].
+  destruct (last_index_byte p 47) as [i|]; [now apply has_suffix_skipn in H|exact H].
+Qed.
+Lemma blocks_find_in m : NoDup (map fst m) -> forall p f, In (p, f) m -> blocks_find m p = Some f.
+Proof.
+  induction m as [|[k v] r IH]; intros Hnd p f Hin; [contradiction|].
+  cbn [map fst] in Hnd. inversion Hnd as [|? ? Hk Hr]; subst.
+  cbn [blocks_find]. destruct Hin as [Heq|Hin].
+  - inversion Heq; subst. now rewrite beq_refl.
+  - destruct (beq k p) eqn:E; [|now apply IH].
+    apply beq_eq in E. subst k. exfalso. apply Hk. apply in_map_iff. now exists (p, f).
+Qed.
+(* the file itself is (one half of) a pair that cannot be made *)
+Lemma nothing_in_file_no_pair m p f :
+  pem_name p = true -> blocks_find m p = Some f -> f_cert f = None -> f_key f = None ->
+  exists cf kf, classify p = Some (cf, kf) /\ key_pair m cf kf = None.
+Proof.
+  intros Hp Hf Hc Hk. apply pem_name_suffix in Hp. unfold classify.
+  destruct (has_suffix p s_cert).
+  - eexists _, _. split; [reflexivity|]. now apply (no_cert_no_pair m _ _ f).
+  - destruct (has_suffix p s_key).
+    + eexists _, _. split; [reflexivity|]. now apply (no_key_no_pair m _ _ f).
+    + rewrite Hp. eexists _, _. split; [reflexivity|]. now apply (no_cert_no_pair m _ _ f).
+Qed.
+Lemma view_names_in d p :
+  In p (map fst (flat_map read_of (filter wanted d))) -> In p (map fst d).
+Proof.
+  intros H. apply in_map_iff in H as ([q f] & Hq & Hin). cbn [fst] in Hq. subst q.
+  apply in_flat_map in Hin as ([q e] & Hin & Hr). apply filter_In in Hin as [Hin _].
+  unfold read_of in Hr. cbn [fst snd] in Hr. destruct (d_read e); [|contradiction].
+  destruct Hr as [Hr|[]]. inversion Hr; subst. apply in_map_iff. now exists (p, e).
+Qed.
+Lemma view_names_nodup d :
+  NoDup (map fst d) -> NoDup (map fst (flat_map read_of (filter wanted d))).
+Proof.
+  induction d as [|[p e] r IH]; intros Hnd; [constructor|].
+  cbn [map fst] in Hnd. inversion Hnd as [|? ? Hp Hr]; subst.
+  cbn [filter]. destruct (wanted (p, e)); [|now apply IH].
+  cbn [flat_map]. unfold read_of at 1. cbn [fst snd].
+  destruct (d_read e) as [f|]; cbn [app map fst]; [|now apply IH].
+  constructor; [|now apply IH]. intros H. apply Hp. now apply view_names_in.
+Qed.
+Lemma nothing_in_file_unusable d p e f :
+  NoDup (map fst d) -> In (p, e) d -> wanted (p, e) = true -> d_read e = Some f ->
+  f_cert f = None -> f_key f = None ->
+  usable (dir_view d) = None.
+Proof.
+  intros Hnd Hin Hw Hr Hc Hk. unfold dir_view.
+  destruct (existsb unreadable (filter wanted d)); [reflexivity|].
+  set (b := flat_map read_of (filter wanted d)).
+  assert (Hb : In (p, f) b).
+  { apply in_flat_map. exists (p, e). split; [apply filter_In; auto|].
+    unfold read_of. cbn [fst snd]. rewrite Hr. now left. }
+  assert (Hf : blocks_find b p = Some f) by (apply blocks_find_in; [now apply view_names_nodup|exact Hb]).
+  assert (Hp : pem_name p = true).
+  { unfold wanted in Hw. cbn [fst snd] in Hw. apply andb_prop in Hw as [Hw _]. now apply andb_prop in Hw as [_ Hw]. }
+  destruct (nothing_in_file_no_pair b p f Hp Hf Hc Hk) as (cf & kf & Hcl & Hkp).
+  apply load_error_unusable. apply (unusable_entry_fails_load b p cf kf); auto.
+  apply in_map_iff. now exists (p, f).
+Qed.
+(* ... so after every history the handshake after such a state is presented what the one
+   before it was: the working set stays, the certificate of the emptied file included *)
+Lemma nothing_in_file_keeps_set dirs d p e f n s :
+  NoDup (map fst d) -> In (p, e) d -> wanted (p, e) = true -> d_read e = Some f ->
+  f_cert f = None -> f_key f = None ->
+  nth (length dirs) (run_store_seen [] (e2e_actions watch_step false None (map dir_load (dirs ++ [d])) n s)) SNone
+  = seen_on (last_good [] (map dir_view dirs)) n s.
+Proof.
+  intros Hnd Hin Hw Hr Hc Hk. apply unusable_directory_keeps_set.
+  now apply (nothing_in_file_unusable d p e f).
+Qed.
+
+(* two sites, each in a combined file; then shop.pem truncated to zero bytes; then main as a
+   pair beside shop, both files of the pair empty at once; then the renewal *)
+Definition nothing : pfile := pf 0 None None.
+Definition main_cert : cert := [bs "main.example"].
+Definition shop_v1 : dirstate :=
+  [(bs "00-main.pem", reg 800 1 (pf 1 (Some (7, main_cert)) (Some 7)));
+   (bs "shop.pem", reg 810 1 (pf 2 (Some (7, rel_v1_cert)) (Some 7)))].
+Definition shop_truncated : dirstate :=
+  [(bs "00-main.pem", reg 800 1 (pf 1 (Some (7, main_cert)) (Some 7)));
+   (bs "shop.pem", reg 0 2 nothing)].
+Definition shop_pair_v1 : dirstate :=
+  [(bs "00-main.pem", reg 800 1 (pf 1 (Some (7, main_cert)) (Some 7)));
+   (bs "shop-cert.pem", reg 640 3 (pf 3 (Some (7, rel_v1_cert)) None));
+   (bs "shop-key.pem", reg 227 3 (pf 4 None (Some 7)))].
+Definition shop_pair_empty : dirstate :=
+  [(bs "00-main.pem", reg 800 1 (pf 1 (Some (7, main_cert)) (Some 7)));
+   (bs "shop-cert.pem", reg 0 4 nothing);
+   (bs "shop-key.pem", reg 0 4 nothing)].
+Definition shop_pair_v2 : dirstate :=
+  [(bs "00-main.pem", reg 800 1 (pf 1 (Some (7, main_cert)) (Some 7)));
+   (bs "shop-cert.pem", reg 640 5 (pf 5 (Some (7, rel_v2_cert)) None));
+   (bs "shop-key.pem", reg 227 5 (pf 4 None (Some 7)))].
+Definition zero_length_history : list dirstate :=
+  [shop_v1; shop_truncated; shop_pair_v1; shop_pair_empty; shop_pair_empty; shop_pair_v2].
+Example zero_length_example :
+  NoDup (map fst shop_truncated) /\
+  In (bs "shop.pem", reg 0 2 nothing) shop_truncated /\
+  wanted (bs "shop.pem", reg 0 2 nothing) = true /\
+  d_size (reg 0 2 nothing) = 0 /\ f_cert nothing = None /\ f_key nothing = None /\
+  usable (dir_view shop_truncated) = None /\ usable (dir_view shop_pair_empty) = None /\
+  run_store_seen [] (e2e_actions watch_step false None (map dir_load zero_length_history) (bs "shop.example") true)
+  = [SCert rel_v1_cert; SCert rel_v1_cert; SCert rel_v1_cert; SCert rel_v1_cert; SCert rel_v1_cert; SCert rel_v2_cert] /\
+  run_store_seen [] (e2e_actions watch_step false None (map dir_load zero_length_history) (bs "shop.example") false)
+  = [SCert rel_v1_cert; SCert rel_v1_cert; SCert rel_v1_cert; SCert rel_v1_cert; SCert rel_v1_cert; SCert rel_v2_cert].
+Proof.
+  split; [repeat constructor; cbn; intuition discriminate|].
+  split; [right; now left|].
+  vm_compute. repeat split.
+Qed.
+(* a loader that leaves out the entries Lstat reports as empty does not have the property: the
+   truncated file vanishes from the material, the remaining files are published as a smaller
+   set, and the name served from the truncated file is presented another site's certificate -
+   or, on a strict listener, none *)
+Lemma skip_empty_files_refuted :
+  exists dirs d p e f n,
+    NoDup (map fst d) /\ In (p, e) d /\ wanted (p, e) = true /\ d_read e = Some f /\
+    f_cert f = None /\ f_key f = None /\ d_size e = 0 /\
+    seen_on (last_good [] (map dir_view dirs)) n false = SCert rel_v1_cert /\
+    nth (length dirs) (run_store_seen [] (e2e_actions watch_step false None (map dir_load_skipping_empty (dirs ++ [d])) n false)) SNone
+      = SCert main_cert /\
+    nth (length dirs) (run_store_seen [] (e2e_actions watch_step false None (map dir_load_skipping_empty (dirs ++ [d])) n true)) SErrNoCerts
+      = SNone /\
+    nth (length dirs) (run_store_seen [] (e2e_actions watch_step false None (map dir_load (dirs ++ [d])) n false)) SNone
+      = SCert rel_v1_cert /\
+    nth (length dirs) (run_store_seen [] (e2e_actions watch_step false None (map dir_load (dirs ++ [d])) n true)) SNone
+      = SCert rel_v1_cert.
+Proof.
+  exists [shop_v1], shop_truncated, (bs "shop.pem"), (reg 0 2 nothing), nothing, (bs "shop.example").
+  split; [repeat constructor; cbn; intuition discriminate|].
+  split; [right; now left|].
+  vm_compute. repeat split.
+Qed.
+(* ... and the same with both files of a pair empty at once *)
+Lemma skip_empty_pair_refuted :
+  usable (dir_view shop_pair_empty) = None /\
+  nth 1 (run_store_seen [] (e2e_actions watch_step false None (map dir_load_skipping_empty [shop_pair_v1; shop_pair_empty]) (bs "shop.example") true)) SErrNoCerts
+    = SNone /\
+  nth 1 (run_store_seen [] (e2e_actions watch_step false None (map dir_load [shop_pair_v1; shop_pair_empty]) (bs "shop.example") true)) SNone
+    = SCert rel_v1_cert.
+Proof. vm_compute. repeat split. Qed.
